@@ -21,6 +21,11 @@ def run(res):
     K3 = dict(G=('g1', 'g2', 'g3'), Script={'g1': (('y', 0), ('kill', 3)), 'g2': (('y', 2),), 'g3': (('start', 2), ('y', 1))},
               Dts={1}, MaxTimer=6, **dict(BASE, WithKill=th))
     cc.check_and_replay(res, 'c09_three', K3, depth_all=0, walks=10000 if th else 1000)
+    # a manager pauses and resumes a sleeping coroutine from inside its body (kill, start), and a coroutine that runs
+    # later in that very frame goes to sleep: every structure touched by the restart must still be the one the frame uses
+    Ka = dict(G=('m', 's', 'b'), Script={'m': (('y', 0), ('kill!', 2), ('start', 2), ('y', 0)), 's': (('y', 3), ('y', 0)), 'b': (('y', 0), ('y', 2), ('y', 0))},
+              Dts={1, 2}, MaxTimer=8, **dict(BASE, WithKill=False))
+    cc.check_and_replay(res, 'c09_restart_in_frame', Ka, depth_all=0, walks=10000 if th else 1000)
     cc.trace_validate(res, 'c09_recorded', 6, 1000 if th else 100, 60)
     for sw in ('StartCancelsPendingKill', 'FinishDropsKillMark'):
         K2 = dict(Ks if sw == 'FinishDropsKillMark' else K)
